@@ -46,7 +46,7 @@ def shards(tier: str, seed: int) -> list[dict]:
 
 
 def judge(case: dict, col) -> None:  # noqa: ANN001
-    if case.get("t") in ("twin", "native_through", "native_child_cancels"):
+    if case.get("t") in ("twin", "native_through", "native_child_cancels", "native_during_cleanup"):
         res = native_twins.execute(case)
         col.case(res["sig"], True, sample={"case": case, "outcomes": res["log_tail"]})
         for k, v in res["windows"].items():
